@@ -5,7 +5,7 @@ Spec == Init /\ [][Next]_vars
 Sizes == Len(hs) <= 3 /\ Len(jobs) <= 2 /\ Len(conns) <= 2 /\ now <= 14 /\ Len(tq) <= 3
 \* breadth: two names, piggy-backing, two TCP connections, every kind of answer
 Bound  == Sizes /\ TLCGet("level") <= 6
-BoundT == Sizes /\ TLCGet("level") <= 9
+BoundT == Sizes /\ TLCGet("level") <= 8
 \* depth: one job followed through the whole retransmission schedule (ns = 2, T = <<1,2>> needs 9 steps) and the TCP leg
 Deep == Len(hs) <= 2 /\ Len(jobs) <= 1 /\ Len(conns) <= 1 /\ Len(tq) <= 1 /\ now <= 20
 BoundDeep  == Deep /\ TLCGet("level") <= 13
